@@ -2533,11 +2533,16 @@ where
     }
 
     /// A Session Expiry Interval in DISCONNECT replaces the one agreed at connect time: 0 ends
-    /// the session with this connection, any other value keeps it.
+    /// the session with this connection, any other value keeps it. It cannot turn a session
+    /// that began with interval 0 into a persistent one ([MQTT-3.14.2-2] makes that a protocol
+    /// error of the sender): nothing of such a session was stored, so keeping its packet IDs
+    /// beyond the connection would only leak them.
     fn apply_disconnect_session_expiry(&mut self, props: &Option<Vec<Property>>) {
         for prop in props.iter().flatten() {
             if let Property::SessionExpiryInterval(val) = prop {
-                self.need_store = val.val() != 0;
+                if val.val() == 0 {
+                    self.need_store = false;
+                }
             }
         }
     }
